@@ -505,6 +505,9 @@ func (x *vc) execInstr(fr *frame, st *state, instr ssa.Instruction) {
 		x.check(st, "nil", "mapupdate", not(eq(m.T, "0")), pos, "assignment to entry in nil map")
 		mt := in.Map.Type().Underlying().(*types.Map)
 		x.hashableKey(st, mt, k, pos)
+		if f := x.mapInvFormula(st, mt, v); f != "" {
+			x.oblige(st, "mapinv", "", f, pos, "declared invariant of the values of "+mt.String()+" holds for the stored value", true)
+		}
 		d, va, l := x.mapArrs(st, mt)
 		had := app("select", app("select", st.heap[d], m.T), k.T)
 		newLen := ite(had, app("select", st.heap[l], m.T), app("+", app("select", st.heap[l], m.T), "1"))
@@ -527,6 +530,9 @@ func (x *vc) execInstr(fr *frame, st *state, instr ssa.Instruction) {
 		val := ite(has, app("select", app("select", st.heap[va], m.T), k.T), x.srt.zero(mt.Elem()))
 		vv := Val{T: x.define("mapval", x.srt.sortOf(mt.Elem()), val), Typ: mt.Elem()}
 		x.assume(st.guard, x.typeInv(vv.T, mt.Elem(), st))
+		if f := x.mapInvFormula(st, mt, vv); f != "" {
+			x.assume(and(st.guard, has), f) // data-structure invariant of this map type (checked at every update)
+		}
 		if in.CommaOk {
 			fr.vals[in] = Val{Tuple: []Val{vv, {T: has, Typ: types.Typ[types.Bool]}}, Typ: in.Type()}
 		} else {
@@ -1210,6 +1216,9 @@ func (x *vc) next(fr *frame, st *state, in *ssa.Next) Val {
 		x.assume(and(st.guard, ok.T), app("select", app("select", st.heap[d], it.Iter.m.T), k.T))
 		v := Val{T: x.define("mv", x.srt.sortOf(mt.Elem()), app("select", app("select", st.heap[va], it.Iter.m.T), k.T)), Typ: mt.Elem()}
 		x.assume(st.guard, x.typeInv(v.T, mt.Elem(), st))
+		if f := x.mapInvFormula(st, mt, v); f != "" {
+			x.assume(and(st.guard, ok.T), f)
+		}
 		return Val{Tuple: []Val{ok, k, v}, Typ: in.Type()}
 	}
 	s := it.Iter.str
